@@ -32,11 +32,13 @@ def leaf(i):
     return ("s", i, *BASE[i])
 
 
-def forms_over(T, depth):
-    """assignable forms applied to target T"""
+def forms_over(T, depth, lean=False):
+    """assignable forms applied to target T (lean: the corner subset used for the outer level in the quick tier)"""
     w, sg = S.target_shape(T)
     for a in range(0, w + 1):
         for b in range(a, w + 2):
+            if lean and (a, b) not in ((0, w), (0, 1), (1, w), (1, w + 1), (w, w), (0, 0)):
+                continue
             yield ("slice", T, a, b, None)
     yield ("slice", T, -1, None, None)
     yield ("slice", T, None, -1, None)
@@ -48,6 +50,8 @@ def forms_over(T, depth):
     yield ("cat", T)
     yield ("cat", z, T, z)
     for width in range(0, w + 2):
+        if lean and width not in (0, 1, 2, w + 1):
+            continue
         yield ("bsel", T, o, width)
         yield ("bsel", T, z, width)          # zero-width offset
         if width:
@@ -55,6 +59,8 @@ def forms_over(T, depth):
             yield ("wsel", T, i_, width)
             yield ("wsel", T, z, width)
         for k in range(0, w + 2):
+            if lean and k not in (0, w - 1, w):
+                continue
             yield ("bsel", T, ("k", k), width)
     yield ("arr", i_, T, y)
     yield ("arr", i_, y, T)
@@ -68,8 +74,32 @@ def forms_over(T, depth):
         yield ("ror", T, k)
 
 
+def _wellformed(T):
+    """operators applied to an Array proxy are forwarded to its *elements* (docs: Arrays), so above an array
+    element only Value-level constructors (Cat, another Array) keep the meaning of this grammar; and one
+    assignment must not name the same storage twice (the statement orders assignments, not bits within one)"""
+    k = T[0]
+    if k == "s":
+        return True
+    subs = [x for x in T[1:] if isinstance(x, tuple) and x[0] != "k"]
+    if k in ("slice", "idx", "bsel", "wsel", "u", "rol", "ror") and T[1 if k != "u" else 2][0] == "arr":
+        return False
+    if k == "cat":
+        seen = set()
+        for p in T[1:]:
+            lv = S._all_leaves(p)
+            if lv & seen:
+                return False
+            seen |= lv
+    tgt_subs = {"slice": [T[1]], "idx": [T[1]], "cat": list(T[1:]), "bsel": [T[1]], "wsel": [T[1]],
+                "arr": list(T[2:]), "u": [T[2]] if k == "u" else [], "rol": [T[1]], "ror": [T[1]]}[k]
+    return all(_wellformed(x) for x in tgt_subs)
+
+
 def valid_target(T):
     try:
+        if not _wellformed(T):
+            return False
         w, sg = S.target_shape(T)
         S.bitmap(T, {X: 0, Y: 0, O: 0, I: 0, Z: 0, ROW0: 0, ROW1: 0})
         return w <= 7
@@ -77,7 +107,7 @@ def valid_target(T):
         return False
 
 
-def all_targets(depth, with_rows):
+def all_targets(depth, with_rows, lean_outer=False):
     roots = [leaf(X), leaf(Y)] + ([leaf(ROW0)] if with_rows else [])
     level = list(roots)
     out = list(roots)
@@ -87,7 +117,7 @@ def all_targets(depth, with_rows):
         for T in level:
             if with_rows and not uses_row(T):
                 continue
-            for f in forms_over(T, d):
+            for f in forms_over(T, d, lean=(lean_outer and d >= 1) or d >= 2):
                 if f not in seen and valid_target(f):
                     if d >= 1 and f[0] in ("idx", "rol", "ror") and depth > 2:
                         continue
@@ -170,11 +200,7 @@ def write_batch(task):
     shapes = dict(BASE)
     shapes[ROW0] = shapes[ROW1] = ROWSH
     ctl = [O, I]
-    state_ranges = [R.values_of(*shapes[i]) for i in state_sigs]
-    if with_rows:
-        state_ranges[0] = [0, 5]       # x / y are bystanders when rows are the storage
-        state_ranges[1] = [0, -1]
-    ctl_ranges = [R.values_of(*shapes[i]) for i in ctl]
+    BYSTANDER = {X: [5], Y: [-2], ROW0: [2], ROW1: [6], O: [0], I: [0]}
 
     def body(ctx):
         def load(st):
@@ -185,6 +211,12 @@ def write_batch(task):
             return tuple(ctx.get(sigs[i]) for i in state_sigs)
         for (n, T, bt, L) in built:
             changed_any = False
+            used = set(R.leaves(T))
+            writable = S._all_leaves(T)
+            # every state of the signals the target can write, every value of the offsets / indices it reads;
+            # signals the target does not mention are bystanders held at a fixed non-trivial value (and must stay there)
+            state_ranges = [R.values_of(*shapes[i]) if i in writable else BYSTANDER[i] for i in state_sigs]
+            ctl_ranges = [R.values_of(*shapes[i]) if i in used else BYSTANDER[i] for i in ctl]
             values = range(-(1 << L), (2 << L)) if L <= 3 else list(range(-(1 << L) // 2 - 1, (1 << L) + 1))
             for ctlv in itertools.product(*ctl_ranges):
                 for i, v in zip(ctl, ctlv):
@@ -333,8 +365,8 @@ def _dispatch(t):
 
 def run(rep):
     depth = rep.pick(2, 3)
-    tg = all_targets(depth, False)
-    tg_rows = all_targets(rep.pick(1, 2), True)
+    tg = all_targets(depth, False, lean_outer=rep.quick)
+    tg_rows = all_targets(rep.pick(1, 2), True, lean_outer=rep.quick)
     tg_rows = [t for t in tg_rows if uses_row(t)]
     tasks = [("w", (ch, False)) for ch in chunks(tg, rep.pick(12, 12))]
     tasks += [("w", (ch, True)) for ch in chunks(tg_rows, 12)]
